@@ -176,6 +176,26 @@ def check(ctx):
     ctx.distinct.update(("trace", t) for t in traces)
     ctx.coverage["distinct_allocation_traces"] = len(traces)
     ctx.oblige("spec-on-impl", "live=0 and bad=0 after every one of %d histories (%d of them with a refused allocation)" % (len(lines) + len(flines), len(flines)), leaks == 0)
+    # "nothing is used after release" when the data argument lies inside the list being edited (the element bodies handed
+    # back by the iterator are such pointers): copies of existing elements appended from the list's own buffer between
+    # ordinary edits (op tgd), under the allocation recorder; decided on the implementation alone (ASan + ledger)
+    import diffrun
+    al = []
+    for _ in range(150 if ctx.tier == "quick" else 2000):
+        ops = ["a:%d:%s" % (rnd.choice([0, 3, 48, 221]), frames.tag_body(rnd, rnd.choice([1, 2, 16, 100, 255])).hex())]
+        for _ in range(rnd.choice([1, 2, 4, 8])):
+            n = rnd.choice([0, 3, 48, 221])
+            ops.append(rnd.choice(["d:%d" % n, "d:%d" % n, "a:%d:%s" % (n, frames.tag_body(rnd, rnd.choice([1, 16, 255])).hex()), "r:%d" % n]))
+        al.append("alloc none 0 %d tgd %s" % (rnd.choice([-1, 0xCD]), ",".join(ops)))
+    ao, acr = diffrun.run_harness_all(exe, al)
+    abad = 0
+    for l, c in zip(al, ao):
+        lg = ledger_of(c or "")
+        if lg is None or lg[0] != 0 or lg[1] != 0:
+            abad += 1
+            ctx.violation("S-alloc/aliased:" + l[:300], "edit history whose added data lies inside the list's own buffer: `%s` -> %s" % (l[:200], (c or "")[-200:]),
+                          {"kind": "line", "suite": "S-alloc/aliased-data", "line": l, "observed": c, "expected": "live=0 bad=0, no sanitizer report"})
+    ctx.oblige("spec-on-impl", "S-alloc/aliased-data: no use after release, live=0 and bad=0 on %d histories whose added data points into the list itself" % len(al), abad == 0, "%d failing" % abad)
     # release routines on zero-initialised objects
     z = ["zerofree"]
     fw.run_suite(ctx, exe, "S-alloc/zero-init", z, "release of zero-initialised objects")
